@@ -97,8 +97,8 @@ def main(run):
             run.count("real-model-configs")
         else:
             cfg = gen_cfg(rnd, "sage", exact, allow_discontinuous=True)
-            if i in (40, 41) or (run.tier == "thorough" and i % 500 == 42):      # thousands of calls on one explainer (exact and float)
-                make_long(cfg, rnd, 4200 if i == 41 else rnd.choice([1100, 2100, 9000 if run.tier == "thorough" else 1300]))
+            if i in (40, 41) or (run.tier == "thorough" and i % 1500 == 42):      # thousands of calls on one explainer (exact and float)
+                make_long(cfg, rnd, 4200 if i == 41 else rnd.choice([1100, 2100, 5000 if run.tier == "thorough" else 1300]))
                 run.count("long-stream-configs")
             if i in (50, 51, 53, 56) or (run.tier == "thorough" and i % 300 == 50):      # model that becomes informative after ~40 observations
                 make_phase(cfg, rnd, dyn=(i == 51))
